@@ -43,16 +43,19 @@ PALETTE = {
 }
 
 
-def workspace(types, virtual, ext_ed, ext_dep):
+def workspace(types, virtual, ext_ed, ext_dep, ext_in_ws=False):
     pk = []
     ws = ["ws"]
+    # the path dependency `ext` lives outside the workspace directory, or below it without being
+    # a member (it has a [workspace] table of its own)
+    extdir = ws + ["vendor", "ext"] if ext_in_ws else ["ext"]
     n = len(types)
     for i, t in enumerate(types):
         spec = PALETTE[t]
         d = ws + [f"m{i + 1}"]
         deps = []
         if spec["dep"] == "ext":
-            deps.append({"name": "ext", "dir": ["ext"]})
+            deps.append({"name": "ext", "dir": extdir})
         if spec["dep"] == "next" and n > 1:
             j = (i + 1) % n
             deps.append({"name": f"m{j + 1}", "dir": ws + [f"m{j + 1}"]})
@@ -66,12 +69,12 @@ def workspace(types, virtual, ext_ed, ext_dep):
                    "targets": [{"kind": "lib", "path": ws + ["src", "lib.rs"]}], "deps": []})
     if any(PALETTE[t]["dep"] == "ext" for t in types):
         deps = [{"name": "ext2", "dir": ["ext2"]}] if ext_dep else []
-        pk.append({"name": "ext", "dir": ["ext"], "member": False, "edition": ext_ed,
-                   "targets": [{"kind": "lib", "path": ["ext", "src", "lib.rs"]}], "deps": deps})
+        pk.append({"name": "ext", "dir": extdir, "member": False, "edition": ext_ed,
+                   "targets": [{"kind": "lib", "path": extdir + ["src", "lib.rs"]}], "deps": deps})
         if ext_dep:
             pk.append({"name": "ext2", "dir": ["ext2"], "member": False, "edition": "2015",
                        "targets": [{"kind": "lib", "path": ["ext2", "src", "lib.rs"]}],
-                       "deps": [{"name": "ext", "dir": ["ext"]}]})   # cyclic via dev-dependency
+                       "deps": [{"name": "ext", "dir": extdir}]})   # cyclic via dev-dependency
     return {"packages": pk, "ws_root": ws, "virtual": virtual}
 
 
@@ -82,10 +85,11 @@ def universe():
     for types in combos:
         for _once in (0,):
             for virtual in (True, False):
-                for ext_ed, ext_dep in (("2021", False), ("2018", True)):
-                    if not any(PALETTE[t]["dep"] == "ext" for t in types) and ext_dep:
+                for ext_ed, ext_dep, ext_in in (("2021", False, False), ("2018", True, False),
+                                            ("2018", False, True)):
+                    if not any(PALETTE[t]["dep"] == "ext" for t in types) and (ext_dep or ext_in):
                         continue
-                    w = workspace(types, virtual, ext_ed, ext_dep)
+                    w = workspace(types, virtual, ext_ed, ext_dep, ext_in)
                     names = [p["name"] for p in w["packages"] if p["member"]]
                     strategies = [("root", []), ("all", []), ("some", [names[0]]),
                                   ("some", ["nosuch"])]
@@ -144,6 +148,10 @@ def materialise(base, sc):
     if rootp:
         lines += manifest(rootp[0], sc, base)
     lines += ["[workspace]", "members = [" + ", ".join(f'"{p["dir"][-1]}"' for p in members) + "]"]
+    inside = [p for p in sc["packages"] if not p["member"] and p["dir"][:len(sc["ws_root"])] == sc["ws_root"]]
+    if inside:
+        lines.append("exclude = [" + ", ".join('"' + "/".join(p["dir"][len(sc["ws_root"]):]) + '"'
+                                                for p in inside) + "]")
     (root / "Cargo.toml").write_text("\n".join(lines) + "\n")
     base.joinpath(*sc["cwd"]).mkdir(parents=True, exist_ok=True)
 
